@@ -23,6 +23,9 @@ TRUSTED = ['Lean 4.33 kernel', 'axioms: propext, Classical.choice, Quot.sound', 
            'modelled, not verified: numqi/utils.py:partial_trace, numqi/dicke.py; np.einsum is modelled as the contraction it denotes']
 
 
+EMPTY_KEEP_KEY = 'partial_trace-empty-keep'
+
+
 def guarded(f):
     try:
         return f()
@@ -274,7 +277,17 @@ def correspondence(ctx):
         if t[1] in ('klist', 'bij', 'basis', 'number'):
             return int(t[2]) >= 2
         return True
-    common.compare(ctx, ops, impl, model, nontrivial=nontrivial)
+    # empty keep set: the model returns the 1x1 matrix [trace]; a crash of the implementation there is reported through the
+    # finding channel (stable key) with the concrete input instead of as an anonymous correspondence difference
+    keep_ops, keep_impl, keep_model = [], [], []
+    for op, a, b in zip(ops, impl, model):
+        t = op.split(' ')
+        if t[1] in ('pt', 'pts') and t[3] == '-' and a != b and a.startswith('error:'):
+            ctx.fail(EMPTY_KEEP_KEY, f'partial_trace(rho, dim={t[2]}, keep_index=set()) raises {a[6:]} instead of returning [[trace]]',
+                     dict(op='partial_trace', dims=[int(x) for x in t[2].split(';')], keep=[], observed=a, required='1x1 matrix holding the trace: ' + b[:60]))
+            continue
+        keep_ops.append(op); keep_impl.append(a); keep_model.append(b)
+    common.compare(ctx, keep_ops, keep_impl, keep_model, nontrivial=nontrivial)
     ctx.extra['exhaustive'] = not ctx.quick()
     ctx.extra['exhaustive_domain'] = ('all keep-subsets of all dimension lists of length 2..5 with entries 2..4; Dicke (n,d) in 1..6 x 2..5'
                                       if not ctx.quick() else 'all keep-subsets of all lists of length 2..3 (entries 2..4); sampled above')
@@ -331,6 +344,8 @@ def probe(ctx):
         for keep in subsets:
             rep = dict(op='partial_trace', dims=list(dims), keep=list(keep), rho_seed=ctx.np_seed + 2)
             got = guarded(lambda: numqi.utils.partial_trace(rho, dims, set(keep)))
+            if isinstance(got, str) and len(keep) == 0:
+                ctx.fail(EMPTY_KEEP_KEY, f'partial_trace(rho, dim={dims}, keep_index=set()) raises {got[6:]} instead of returning [[trace]]', rep); continue
             if isinstance(got, str):
                 ctx.fail('partial_trace-raises', f'partial_trace raises {got} for dims={dims}, keep={keep}', rep); continue
             want = explicit_partial_trace(rho, dims, keep)
